@@ -153,6 +153,44 @@ def approx_stream(f, items):
     return bytes(s)
 
 
+DEPTHS = [1, 2, 31, 32, 33, 63, 64, 65, 66, 127, 128, 129, 200, 500]
+
+
+def nested_text(kind, depth, leaf):
+    """JSON text of a value nested `depth` levels deep: arrays, objects, or mixed (object, array, array, object, ...)."""
+    opens, closes = [], []
+    for d in range(depth):
+        obj = kind == "obj" or (kind == "mix" and d % 3 == 0) or (kind == "mix2" and d % 2 == 1)
+        if obj:
+            opens.append('{"k%d":' % (d % 7) if d % 5 else '{"}":[],"k":'); closes.append("}")
+        else:
+            opens.append("[1," if d % 4 == 0 else "["); closes.append("]")
+    return "".join(opens) + leaf + "".join(reversed(closes))
+
+
+def deep_nesting_scripts(r, quick):
+    """Valid messages whose params / result are nested 1 .. 500 levels deep, written by the real encoder and as plain texts, in all
+    three framings, each followed by an ordinary message that must still be decoded."""
+    scripts = []
+    n = 0
+    for depth in DEPTHS:
+        for kind in ("arr", "obj", "mix", "mix2"):
+            for role in ("params", "result"):
+                n += 1
+                f = FRAMINGS[n % 3] if quick else None
+                for fr in ([f] if quick else FRAMINGS):
+                    v = nested_text(kind, depth, r.choice(['"]}"', "1", "{}", "[]", '"\\\\\\""']))
+                    if n % 2:
+                        first = {"enc": "req", "id": 1 + n % 5, "m": B("deep"), "p": B(v)} if role == "params" else {"enc": "res", "id": 1 + n % 5, "p": B(v)}
+                    else:
+                        first = {"t": B('{"jsonrpc":"2.0","id":%d,%s}' % (1 + n % 5, '"method":"deep","params":' + v if role == "params" else '"result":' + v))}
+                    items = [first] + ([{"g": B("\n")}] if fr == "raw" and n % 3 == 0 else []) + [{"enc": "req", "id": 9, "m": B("after"), "p": B("[1]")}]
+                    size = len(v) + 60
+                    runs = [[], [size // 2], [max(1, size - 8), size + 20]]
+                    scripts.append({"f": fr, "items": items, "runs": runs})
+    return scripts
+
+
 def seeded_framing_scripts(r, n_valid, n_hostile):
     scripts = []
     for i in range(n_valid):
@@ -252,6 +290,10 @@ def gen_to_rpc_scripts(behs, r):
                 else: steps.append({"o": "rsp", "raw": op["raw"], "kind": ["err", "res", "err", "req"][(i + len(steps)) % 4]})
             elif op["o"] == "adv":
                 steps.append({"o": "adv", "u": 1})
+            elif op["o"] in ("insync", "inasync"):
+                steps.append({"o": "inreq", "m": op["o"][2:], "id": op["k"]})          # the peer's request, with the peer's id
+            elif op["o"] == "respond":
+                steps.append({"o": "respond", "j": op["k"]})
             else:
                 steps.append({"o": "cleanup"})
         # let the clock run out at the end so that every request must have completed
@@ -273,7 +315,7 @@ def seeded_rpc_scripts(r, n, nsteps):
     for i in range(n):
         N = r.choice([1, 1, 2, 2, 3])
         T = r.choice([1, 2, 2, 4])
-        steps, nreq = [], 0
+        steps, nreq, nin = [], 0, 0
         for _ in range(nsteps):
             x = r.random()
             if x < 0.25:
@@ -283,8 +325,14 @@ def seeded_rpc_scripts(r, n, nsteps):
             elif x < 0.5 and nreq:
                 k = max(1, nreq + 1 - r.choice([0, 1, 1, 1, 2, 2, 3, 5]))          # mostly a recent request, sometimes one not issued yet
                 steps.append({"o": "rsp", "k": k, "kind": "err", "val": r.choice([-1, -7, 5, -32601])} if r.random() < 0.3 else {"o": "rsp", "k": k})
-            elif x < 0.6:
+            elif x < 0.58:
                 steps.append({"o": "rsp", "raw": r.choice(STRANGERS), "kind": r.choice(STRANGER_KINDS)})
+            elif x < 0.68:
+                # the other direction: the peer's requests use the same small id numbers as ours
+                steps.append({"o": "inreq", "m": r.choice(["async", "async", "sync", "nosuch"]), "id": r.choice([1, 1, 2, 2, 3, 4, 5, nreq + 1, nreq + 2])})
+                nin += 1
+            elif x < 0.72 and nin:
+                steps.append({"o": "respond", "j": r.randrange(1, nin + 1)})
             elif x < 0.985:
                 steps.append({"o": "adv", "u": r.randrange(1, T + 1)})
             else:
@@ -343,6 +391,8 @@ def run(ctx):
     if want("rndframe"):
         nv, nh = (500, 700) if q else (6000, 8000)
         fscripts = seeded_framing_scripts(random.Random(ctx.seed * 7919 + 1), nv, nh)
+        dscripts = deep_nesting_scripts(random.Random(ctx.seed * 31 + 5), q)
+        run_frame(ctx, exe, dscripts, "deepframe", "deeply nested valid messages (depth 1..500; %d streams)" % len(dscripts), False)
         ok, tr = run_frame(ctx, exe, fscripts, "rndframe", "seeded corpora: %d valid streams, %d hostile streams, segmented" % (nv, nh), False)
         ctx.sample({"kind": "recorded framing trace (first events)", "events": [json.loads(x)["e"] for x in vlib.read_lines(tr, 1, 12)]})
     if want("rndrpc"):
@@ -365,6 +415,7 @@ def model_checks(ctx, q):
     ctx.tlc_mc(SPEC, "MC_Rpc.tla", "MC_rpc_n3.cfg", coverage=False, timeout=1500)
     ctx.tlc_mc(SPEC, "MC_Rpc.tla", "MC_rpc_asfound.cfg", expect="CallbackAtMostOnce", coverage=False)      # invoke, then erase
     ctx.tlc_mc(SPEC, "MC_Rpc.tla", "MC_rpc_keep.cfg", expect="CallbackAtMostOnce", coverage=False)         # response keeps the callback
+    ctx.tlc_mc(SPEC, "MC_Rpc.tla", "MC_rpc_asyncwrong.cfg", expect="TimeoutOtherwise", coverage=False)    # peer's id in our ring
     ctx.exhaustive = True
     for fn in glob.glob(os.path.join(vlib.SPEC, SPEC, "*_TTrace_*")):      # TLC's trace-explorer files of the expected violations
         os.remove(fn)
@@ -385,6 +436,7 @@ def replay_framing(ctx, exe, q):
 def replay_rpc(ctx, exe, q, r):
     rbehs = ctx.tlc_gen(SPEC, "Gen_Rpc.tla", "Gen_rpc_quick.cfg" if q else "Gen_rpc_thorough.cfg", timeout=1500)
     deep = ctx.tlc_gen(SPEC, "Gen_Rpc.tla", "Gen_rpc_n2.cfg" if q else "Gen_rpc_n2_thorough.cfg", timeout=1500)
+    deep += ctx.tlc_gen(SPEC, "Gen_Rpc.tla", "Gen_rpc_bidir.cfg" if q else "Gen_rpc_bidir_thorough.cfg", timeout=1500)   # both directions
     rbehs.sort(key=lambda b: json.dumps(b, sort_keys=True))       # TLC's workers print in no fixed order
     deep.sort(key=lambda b: json.dumps(b, sort_keys=True))
     rscripts = gen_to_rpc_scripts(rbehs + deep, r)
